@@ -341,7 +341,18 @@ fn exec_c12(plan: &IoSimPlan, out: &mut RunOutcome) {
                     out.unjudged = Some("tick budget exhausted during eval (possibly a non-convergent fixed point)".into());
                 }
             }
-            Caught::Panic(m, l) => violations.push(panic_v("eval", &m, &l, 5)),
+            Caught::Panic(m, l) => {
+                // C12 speaks of formulas whose fixed points converge: when the model's own
+                // iteration of this very input provably cycles, a panic is outside the property
+                if crate::model::fromsym::fixed_points_converge(&pf) == Some(false) {
+                    bump(&mut stats, "probe.eval.panic-on-non-convergent-input");
+                    if out.unjudged.is_none() {
+                        out.unjudged = Some("eval panicked on an input whose fixed point provably does not converge (outside C12)".into());
+                    }
+                } else {
+                    violations.push(panic_v("eval", &m, &l, 5))
+                }
+            }
             Caught::Cancel => {}
         }
         // stage 8: DOT export of the syntax tree into a faulty writer
